@@ -1,5 +1,9 @@
 import AcraModel.Envelope.Masking
 import AcraModel.Envelope.MaskLemmas
+import AcraModel.Envelope.MaskSession
+import AcraModel.Envelope.MaskHeaderLemmas
+import AcraModel.Envelope.MaskWindowLemmas
+import AcraModel.Generated.MaskFlow
 import AcraModel.Props.C01
 /-!
 # C11 — masked columns show only the allowed window to clients that cannot decrypt
@@ -257,7 +261,215 @@ theorem maskRead_never_fatal :
     ∀ (c : CryptoOps) (kv : KeyView) (cfg : MaskCfg) (d : Bytes), maskRead c kv cfg d ≠ .fatal :=
   maskRead_ne_fatal
 
-/-! ## 6. non-vacuity: every hypothesis bundle above is met by a concrete instance -/
+/-! ## 6. several masked columns in one client session
+
+`proxyFactory.New` creates ONE `masking.Processor` (inside ONE `DecryptHandler`, registered with ONE
+`EnvelopeDetector` behind ONE `OldContainerDetectorWrapper`) per client session; every column of every
+row the session reads goes through these objects, each with the setting of its own column.
+`Envelope/MaskSession.lean` models the objects with their mutable fields as explicit state. -/
+
+/-- What the model of the session objects needs from the source of `masking.Processor`
+(`Generated/MaskFlow.lean`, regenerated from `masking/dataProcessor.go` on every run): the struct has
+exactly one field, the decryptor handed to `NewProcessor`; no method assigns (or takes the address of)
+a receiver field; `Process` reads the column setting from the context of the call it serves and, in
+the branch of a masked column, returns either the pattern of THAT setting – when the decryptor failed
+or changed nothing – or the decryptor's output. A pattern kept in the processor between calls (a new
+field, a receiver write, a return of anything else) changes one of these facts. -/
+theorem fact_masking_processor_stateless :
+    Generated.MaskFlow.processorFields = [("decryptor", "base.ExtendedDataProcessor")] ∧
+    Generated.MaskFlow.processorReceiverWrites = [] ∧
+    Generated.MaskFlow.processSettingSource = "encryptor.EncryptionSettingFromContext(context.Context)" ∧
+    Generated.MaskFlow.processMaskedCond = "ok && setting.GetMaskingPattern() != \"\"" ∧
+    Generated.MaskFlow.processPatternCond = "err != nil || bytes.Equal(newData, data)" ∧
+    Generated.MaskFlow.processMaskedReturns = ["[]byte(setting.GetMaskingPattern())", "newData"] := by
+  decide
+
+/-- **What a masked column shows depends on that column alone.** For every session state the previous
+columns may have left, every sequence of (setting, stored value) pairs – different patterns, sides,
+window lengths, envelope kinds – and every reader: the `i`-th result of the session is exactly
+`maskRead` of the `i`-th pair on its own, and it is the same from any starting state. In particular the
+pattern a non-owner sees in column `i` is the pattern configured for column `i`, never one carried over
+from an earlier cell. -/
+theorem mask_columns_independent (c : CryptoOps) (kv : KeyView) (s : MaskSession) (cols : List (MaskCfg × Bytes)) :
+    (maskSessionColumns c kv s cols).2 = cols.map (fun x => maskRead c kv x.1 x.2) ∧
+    (∀ s', (maskSessionColumns c kv s' cols).2 = (maskSessionColumns c kv s cols).2) ∧
+    (∀ i (h : i < cols.length), (maskSessionColumns c kv s cols).2[i]? = some (maskRead c kv cols[i].1 cols[i].2)) := by
+  refine ⟨maskSessionColumns_out c kv s cols, fun s' => ?_, fun i h => ?_⟩
+  · rw [maskSessionColumns_out, maskSessionColumns_out]
+  · rw [maskSessionColumns_out, List.getElem?_map, List.getElem?_eq_getElem h]
+    rfl
+
+/-- **A non-owner's view of a whole session**: if every column of the session was written to a masked
+column (`maskWrite` succeeded under that column's setting), has a clean clear window and cannot be
+opened by the reader (`NonOwnerHyps`, per column), the session hands the reader, column by column, that
+column's window joined with THAT column's pattern – nothing else. -/
+theorem mask_session_other (c : CryptoOps) (kvR : KeyView) (s : MaskSession)
+    (cols : List (MaskCfg × Bytes)) (src : List (KeyView × Bytes × Bytes × Bytes))
+    (hlen : src.length = cols.length)
+    (h : ∀ i (hi : i < cols.length),
+      let cfg := cols[i].1
+      let (kvW, v, rnd, p) := src[i]'(by omega)
+      cfg.pattern ≠ [] ∧ cleanWindow (windowPart cfg v) ∧ NonOwnerHyps c kvW kvR cfg v rnd p ∧
+        maskWrite c kvW cfg v rnd = .ok cols[i].2) :
+    ∀ i (hi : i < cols.length),
+      (maskSessionColumns c kvR s cols).2[i]? =
+        some (.ok (joinSides cols[i].1 (windowPart cols[i].1 (src[i]'(by omega)).2.1) cols[i].1.pattern) true) := by
+  intro i hi
+  rw [(mask_columns_independent c kvR s cols).2.2 i hi]
+  have hh := h i hi
+  generalize hsrc : src[i]'(by omega) = q at hh
+  obtain ⟨kvW, v, rnd, p⟩ := q
+  obtain ⟨hpat, hclean, hno, hw⟩ := hh
+  rw [mask_other c kvW kvR cols[i].1 v rnd p cols[i].2 hpat hclean hno hw]
+
+/-! ## 7. hidden parts that look like a protected value only at their first bytes
+
+`protect` passes a value through unchanged when `RegistryHandler.MatchDataSignature` (or the chosen
+handler's own test) recognises it as already protected; every theorem above therefore assumes
+`matchKind … (hiddenPart …) = false` and `registryMatch (hiddenPart …) = false`. These two predicates
+are the model of the REAL tests – full deserialization of the container and the envelope handler's
+validation of the payload – not a test of the header. The theorems below make that explicit: a hidden
+part that merely begins with a container header satisfies both hypotheses, so it is encrypted like any
+other value and everything above applies to it. -/
+
+/-- What the model's `registryMatch` needs from the source of `RegistryHandler.MatchDataSignature`
+(`Generated/MaskFlow.lean`, from `crypto/registry_handler.go`): it deserializes the value, looks the
+envelope handler up and returns what that handler says about the deserialized payload; both failures
+answer `false`. A version that only inspects the header changes this fact. -/
+theorem fact_registry_match_deserializes :
+    Generated.MaskFlow.registryMatchCalls =
+      ["DeserializeEncryptedData(data)", "GetHandlerByEnvelopeID(envelopeID)", "handler.MatchDataSignature(internal)"] ∧
+    Generated.MaskFlow.registryMatchReturns = ["false", "false", "handler.MatchDataSignature(internal)"] := by
+  decide
+
+/-- **A container header in front of bytes that are no envelope is not a protected value.** Let the
+hidden part be `%%%`, any 8 length bytes `L`, a registered envelope id, and at least one more byte
+`junk`. `MatchDataSignature` answers exactly what the envelope handler says about the first
+`declaredInternal L` bytes of `junk` (and `false` when `junk` is shorter than declared); so unless
+those bytes really are an AcraStruct/AcraBlock, neither `registryMatch` nor any handler's `matchKind`
+holds. Fewer than 18 bytes after the header never match, whatever length is declared. -/
+theorem lookalike_header_not_protected (L junk : Bytes) (id : UInt8) (k : Kind) (hL : L.length = 8)
+    (hk : kindOfId id = some k) (hj : junk ≠ []) :
+    registryMatch (containerTag ++ L ++ [id] ++ junk) =
+      (decide (declaredInternal L ≤ junk.length) && matchKind k (junk.take (declaredInternal L))) ∧
+    (∀ k', matchKind k' (containerTag ++ L ++ [id] ++ junk) = false) ∧
+    (junk.length < 18 → registryMatch (containerTag ++ L ++ [id] ++ junk) = false) := by
+  refine ⟨registryMatch_header L junk id k hL hk hj, fun k' => ?_, registryMatch_header_short L junk id k hL hk hj⟩
+  obtain ⟨r, hr⟩ := containerTag_cons
+  rw [hr]
+  exact matchKind_pct k' _
+
+/-- **The stored form never contains the hidden plaintext in clear** (structural form, see DESIGN §4.3):
+whenever the hidden part is not a protected value in the sense of the real match predicate, a
+successful write to a masked column stores the clear window joined with a serialized container whose
+envelope `e` was freshly built around the hidden part – the ONLY way the hidden bytes enter `e` is as
+the message of the AEAD `c.enc` under the fresh data key drawn from `rnd` (`SealedIn`). This covers
+hidden parts that begin with a look-alike container header (`lookalike_header_not_protected`). -/
+theorem mask_hidden_sealed (c : CryptoOps) (kv : KeyView) (cfg : MaskCfg) (v rnd stored : Bytes)
+    (hpat : cfg.pattern ≠ [])
+    (hnm : matchKind cfg.kind (hiddenPart cfg v) = false) (hnr : registryMatch (hiddenPart cfg v) = false)
+    (hw : maskWrite c kv cfg v rnd = .ok stored) :
+    ∃ e, e ≠ [] ∧ stored = joinSides cfg (windowPart cfg v) (serBytes e cfg.kind.id) ∧
+      SealedIn c kv cfg.kind (hiddenPart cfg v) rnd e := by
+  obtain ⟨p, hp, rfl⟩ := maskWrite_ok hpat hw
+  obtain ⟨e, hne, rfl, hs⟩ := protect_sealedIn hp hnm hnr
+  exact ⟨e, hne, rfl, hs⟩
+
+/-- the same for the look-alike header class spelled out: value = window + (`%%%` | L | id | junk) with
+junk that is no envelope of the named kind – the masked write seals the whole hidden part -/
+theorem mask_lookalike_header_sealed (c : CryptoOps) (kv : KeyView) (cfg : MaskCfg) (v rnd stored L junk : Bytes)
+    (id : UInt8) (k : Kind) (hpat : cfg.pattern ≠ [])
+    (hhid : hiddenPart cfg v = containerTag ++ L ++ [id] ++ junk)
+    (hL : L.length = 8) (hk : kindOfId id = some k) (hj : junk ≠ [])
+    (hno : junk.length < declaredInternal L ∨ matchKind k (junk.take (declaredInternal L)) = false)
+    (hw : maskWrite c kv cfg v rnd = .ok stored) :
+    ∃ e, e ≠ [] ∧ stored = joinSides cfg (windowPart cfg v) (serBytes e cfg.kind.id) ∧
+      SealedIn c kv cfg.kind (hiddenPart cfg v) rnd e := by
+  obtain ⟨h1, h2⟩ := header_lookalike_not_protected L junk id k cfg.kind hL hk hj hno
+  exact mask_hidden_sealed c kv cfg v rnd stored hpat (by rw [hhid]; exact h1) (by rw [hhid]; exact h2) hw
+
+/-! ## 8. clear windows that contain `%`
+
+`cleanWindow` (no `%` in the window) is much more than the read theorems need. What they need is that
+the column scan passes over every position of the window: `maskWindowOk cfg w p` (in
+`Envelope/MaskWindowLemmas.lean`) says that at no position inside the window – read together with the
+bytes that follow it in the stored value, the real container's header included – does
+`ExtractSerializedContainer` succeed. It is stated with the model's own decode attempt, it is
+executable (the harness asks the model for it, op `C11.windowok`, and judges exactly the windows that
+satisfy it), and the theorems of §1–§3 hold under it. -/
+
+/-- the old hypothesis implies the new one -/
+theorem window_ok_of_clean (cfg : MaskCfg) (w p : Bytes) (h : cleanWindow w) : maskWindowOk cfg w p = true :=
+  maskWindowOk_of_noPct cfg w p (cleanWindow_noPct h)
+
+/-- **Non-owner, any window the scan passes over**: `mask_other` with `cleanWindow` replaced by the
+condition actually needed. The window may contain `%`, `%%`, even `%%%` – as long as no position in it
+decodes as a container start when read in front of the real container (left window) resp. on its own
+(right window). -/
+theorem mask_other_window (c : CryptoOps) (kvW kvR : KeyView) (cfg : MaskCfg) (v rnd p stored : Bytes)
+    (hpat : cfg.pattern ≠ [])
+    (hwin : maskWindowOk cfg (windowPart cfg v) p = true)
+    (h : NonOwnerHyps c kvW kvR cfg v rnd p)
+    (hw : maskWrite c kvW cfg v rnd = .ok stored) :
+    maskRead c kvR cfg stored = .ok (joinSides cfg (windowPart cfg v) cfg.pattern) true :=
+  maskRead_nonOwner_win c kvW kvR cfg v rnd p stored hpat hwin h hw
+
+/-- **Owner, any window the scan passes over**: `mask_owner` under the weaker window condition. -/
+theorem mask_owner_window (c : CryptoOps) (kvW kvR : KeyView) (cfg : MaskCfg) (v rnd stored : Bytes)
+    (hpat : cfg.pattern ≠ [])
+    (hnm : matchKind cfg.kind (hiddenPart cfg v) = false) (hnr : registryMatch (hiddenPart cfg v) = false)
+    (hrt : ∀ p, protect c kvW cfg.kind (hiddenPart cfg v) rnd = .ok p →
+      maskWindowOk cfg (windowPart cfg v) p = true ∧
+      RoundTripHyps c cfg.kind kvW kvR (hiddenPart cfg v) rnd p ∧
+      hiddenPart cfg v ≠ p ++ afterContainer cfg (windowPart cfg v))
+    (hw : maskWrite c kvW cfg v rnd = .ok stored) :
+    maskRead c kvR cfg stored = .ok v true := by
+  obtain ⟨p, hp, rfl⟩ := maskWrite_ok hpat hw
+  obtain ⟨hwin, h, hne⟩ := hrt p hp
+  obtain ⟨e, rfl, he, hlen, hproc⟩ := protect_roundtrip_facts c cfg.kind kvW kvR _ rnd p h hnm hnr hp
+  rw [maskRead_owner_win c kvR cfg _ e _ hpat hwin he hlen (hproc _) hne, joinSides_parts]
+
+/-- non-interference under the weaker window condition: two values with the same window are
+indistinguishable for a reader who can open neither -/
+theorem mask_noninterference_window (c : CryptoOps) (kvR : KeyView) (cfg : MaskCfg)
+    (kvW₁ kvW₂ : KeyView) (v₁ v₂ rnd₁ rnd₂ p₁ p₂ stored₁ stored₂ : Bytes)
+    (hpat : cfg.pattern ≠ [])
+    (hwin : windowPart cfg v₁ = windowPart cfg v₂)
+    (hok₁ : maskWindowOk cfg (windowPart cfg v₁) p₁ = true) (hok₂ : maskWindowOk cfg (windowPart cfg v₂) p₂ = true)
+    (h₁ : NonOwnerHyps c kvW₁ kvR cfg v₁ rnd₁ p₁) (hw₁ : maskWrite c kvW₁ cfg v₁ rnd₁ = .ok stored₁)
+    (h₂ : NonOwnerHyps c kvW₂ kvR cfg v₂ rnd₂ p₂) (hw₂ : maskWrite c kvW₂ cfg v₂ rnd₂ = .ok stored₂) :
+    maskRead c kvR cfg stored₁ = maskRead c kvR cfg stored₂ := by
+  rw [mask_other_window c kvW₁ kvR cfg v₁ rnd₁ p₁ stored₁ hpat hok₁ h₁ hw₁,
+    mask_other_window c kvW₂ kvR cfg v₂ rnd₂ p₂ stored₂ hpat hok₂ h₂ hw₂, hwin]
+
+/-- **Left window ending in one or two `%`** (`100%| sure`, `50%%| off` – the run of `%` in front of the
+container is not a multiple of the tag length): if the rest of the window has no `%` and the container
+is shorter than 2^48 bytes, the window condition holds – so a non-owner receives exactly window and
+pattern, and the owner the value. The scan advances ONE byte after the failed parse at the first `%`
+and so meets the real container's tag; a scan that skipped the whole 3-byte tag would jump into it. -/
+theorem window_ok_trailing_pct (c : CryptoOps) (kvW : KeyView) (cfg : MaskCfg) (v rnd p w0 : Bytes) (j : Nat)
+    (hl : cfg.left = true) (hj : j ≤ 2)
+    (hwp : windowPart cfg v = w0 ++ List.replicate j 37) (hw0 : ∀ x ∈ w0, x ≠ 37)
+    (hnm : matchKind cfg.kind (hiddenPart cfg v) = false) (hnr : registryMatch (hiddenPart cfg v) = false)
+    (hp : protect c kvW cfg.kind (hiddenPart cfg v) rnd = .ok p) (hplen : p.length < 2^48) :
+    maskWindowOk cfg (windowPart cfg v) p = true := by
+  obtain ⟨e, _, _, rfl⟩ := c01_protect_ok hp hnm hnr
+  rw [c01_serBytes_length] at hplen
+  unfold maskWindowOk afterContainer
+  simp only [hl, if_true, Bool.and_eq_true]
+  refine ⟨?_, windowOk_nil _⟩
+  rw [hwp]
+  exact windowOk_trailing_pct w0 e [] cfg.kind.id j hj hw0 (by omega)
+
+/-- **Right window of at most 12 bytes, whatever it contains**: fewer than 13 bytes after the container
+can never be taken for a container, so the window condition holds for EVERY content. -/
+theorem window_ok_right_short (cfg : MaskCfg) (w p : Bytes) (hl : cfg.left = false) (hlen : w.length ≤ 12) :
+    maskWindowOk cfg w p = true := by
+  unfold maskWindowOk afterContainer
+  simp only [hl, Bool.false_eq_true, if_false, Bool.and_eq_true]
+  exact ⟨windowOk_nil _, windowOk_short w hlen⟩
+
+/-! ## 9. non-vacuity: every hypothesis bundle above is met by a concrete instance -/
 
 /-- LEFT window, AcraBlock kind, stand-in back end: "hello!" with a clear window of 2 bytes and pattern
 `***`; written with key `[1,2,3]`; the owner reads with the rotated key list `[[4,5],[1,2,3],[1,2,9]]`
@@ -439,5 +651,131 @@ example : (∃ s, maskWrite toyOps ⟨none, none, some [1,2,3], none⟩ ⟨[42],
     have : hiddenPart ⟨[42], 1, true, .block⟩ [7,9,9] = [9,9] := by decide
     rw [this, hp]; rfl
   · decide
+
+/-- A session of two masked columns with DIFFERENT patterns, sides and window lengths, read by a client
+without keys through the same session objects (`mask_session_other`; stand-in back end): `he|llo!` with
+pattern `***` on the right of a left window of 2, and `hey` with pattern `#` on the left of a right
+window of 1 – the reader gets `he***` and then `#y`: each column its own pattern. -/
+example :
+    let cfg₁ : MaskCfg := ⟨[42,42,42], 2, true, .block⟩
+    let cfg₂ : MaskCfg := ⟨[35], 1, false, .block⟩
+    let kvW : KeyView := ⟨none, none, some [1,2,3], none⟩
+    let kvN : KeyView := ⟨none, none, none, none⟩
+    ∃ s₁ s₂, maskWrite toyOps kvW cfg₁ [104,101,108,108,111,33] (List.replicate 56 5) = .ok s₁ ∧
+      maskWrite toyOps kvW cfg₂ [104,101,121] (List.replicate 56 6) = .ok s₂ ∧
+      (maskSessionColumns toyOps kvN MaskSession.init [(cfg₁, s₁), (cfg₂, s₂)]).2 =
+        [.ok [104,101,42,42,42] true, .ok [35,121] true] := by
+  intro cfg₁ cfg₂ kvW kvN
+  have hs := toy_sealLaws
+  have hsl := toy_sealLen
+  have hkid := keyId_length toyOps toy_hashLen [1,2,3] []
+  have mk : ∀ (cfg : MaskCfg) (v rnd : Bytes), cfg.kind = .block → cfg.pattern ≠ [] → cfg.pattern.length ≤ 12 →
+      matchKind .block (hiddenPart cfg v) = false → registryMatch (hiddenPart cfg v) = false →
+      hiddenPart cfg v ≠ [] → (hiddenPart cfg v).length < 100 → 56 ≤ rnd.length →
+      ∃ p, NonOwnerHyps toyOps kvW kvN cfg v rnd p ∧
+        maskWrite toyOps kvW cfg v rnd = .ok (joinSides cfg (windowPart cfg v) p) := by
+    intro cfg v rnd hkind hpat hpl hnm hnr hne hlen hr
+    obtain ⟨p, hp⟩ := protect_block_total toyOps hs kvW [1,2,3] (hiddenPart cfg v) rnd rfl (by decide) hne
+      (by have : maxMsgLen = 2^32 := rfl; omega) hr
+    obtain ⟨hpl', _⟩ := protect_block_length toyOps hs hsl kvW [1,2,3] _ _ p rfl hkid hnm hnr hp
+    rw [← hkind] at hp hnm
+    refine ⟨p, nonOwner_of_no_keys toyOps kvW kvN cfg v rnd p hnm hnr hp (by omega) (Or.inl hpl) ⟨rfl, rfl⟩, ?_⟩
+    rw [maskWrite_eq toyOps kvW cfg v _ hpat, hp]; rfl
+  obtain ⟨p₁, h₁, w₁⟩ := mk cfg₁ [104,101,108,108,111,33] (List.replicate 56 5) rfl (by decide) (by decide) (by decide) (by decide)
+    (by decide) (by decide) (by decide)
+  obtain ⟨p₂, h₂, w₂⟩ := mk cfg₂ [104,101,121] (List.replicate 56 6) rfl (by decide) (by decide) (by decide) (by decide)
+    (by decide) (by decide) (by decide)
+  refine ⟨_, _, w₁, w₂, ?_⟩
+  have hso := mask_session_other toyOps kvN MaskSession.init
+    [(cfg₁, joinSides cfg₁ (windowPart cfg₁ [104,101,108,108,111,33]) p₁), (cfg₂, joinSides cfg₂ (windowPart cfg₂ [104,101,121]) p₂)]
+    [(kvW, [104,101,108,108,111,33], List.replicate 56 5, p₁), (kvW, [104,101,121], List.replicate 56 6, p₂)] rfl
+    (by
+      intro i hi
+      match i, hi with
+      | 0, _ =>
+        show cfg₁.pattern ≠ [] ∧ cleanWindow (windowPart cfg₁ [104,101,108,108,111,33]) ∧ _ ∧ _
+        exact ⟨by decide, by decide, h₁, w₁⟩
+      | 1, _ =>
+        show cfg₂.pattern ≠ [] ∧ cleanWindow (windowPart cfg₂ [104,101,121]) ∧ _ ∧ _
+        exact ⟨by decide, by decide, h₂, w₂⟩)
+  have e0 := hso 0 (Nat.zero_lt_succ _)
+  have e1 := hso 1 (Nat.succ_lt_succ (Nat.zero_lt_succ _))
+  apply List.ext_getElem?
+  intro i
+  match i with
+  | 0 => rw [e0]; rfl
+  | 1 => rw [e1]; rfl
+  | n + 2 =>
+    rw [(mask_columns_independent toyOps kvN MaskSession.init _).1]
+    rfl
+
+/-- A hidden part that begins with a look-alike container header (`%%%`, declared length 15, id 0xF0)
+followed by three bytes that are no AcraBlock: it is NOT passed through – the write seals it
+(`mask_lookalike_header_sealed`), and a reader without keys sees window and pattern (`7*`). -/
+example :
+    let cfg : MaskCfg := ⟨[42], 1, true, .block⟩
+    let hid : Bytes := containerTag ++ [15,0,0,0,0,0,0,0] ++ [idBlock] ++ [9,9,9]
+    let v : Bytes := 7 :: hid
+    let kvW : KeyView := ⟨none, none, some [1,2,3], none⟩
+    let kvN : KeyView := ⟨none, none, none, none⟩
+    ∃ stored e, maskWrite toyOps kvW cfg v (List.replicate 56 5) = .ok stored ∧
+      stored = [7] ++ serBytes e idBlock ∧ SealedIn toyOps kvW .block hid (List.replicate 56 5) e ∧
+      maskRead toyOps kvN cfg stored = .ok [7,42] true := by
+  intro cfg hid v kvW kvN
+  have hs := toy_sealLaws
+  have hsl := toy_sealLen
+  have hkid := keyId_length toyOps toy_hashLen [1,2,3] []
+  have hhid : hiddenPart cfg v = containerTag ++ [15,0,0,0,0,0,0,0] ++ [idBlock] ++ [9,9,9] := by decide
+  have hwin : windowPart cfg v = [7] := by decide
+  obtain ⟨hnm, hnr⟩ := header_lookalike_not_protected [15,0,0,0,0,0,0,0] [9,9,9] idBlock .block .block rfl (by decide) (by decide)
+    (Or.inr (matchKind_short _ _ (by rw [List.length_take]; simp; omega)))
+  rw [← hhid] at hnm hnr
+  obtain ⟨p, hp⟩ := protect_block_total toyOps hs kvW [1,2,3] (hiddenPart cfg v) (List.replicate 56 5) rfl (by decide)
+    (by rw [hhid]; decide) (by rw [hhid]; decide) (by decide)
+  obtain ⟨hpl, _⟩ := protect_block_length toyOps hs hsl kvW [1,2,3] _ _ p rfl hkid hnm hnr hp
+  have hw : maskWrite toyOps kvW cfg v (List.replicate 56 5) = .ok (joinSides cfg (windowPart cfg v) p) := by
+    rw [maskWrite_eq toyOps kvW cfg v _ (by decide), hp]; rfl
+  obtain ⟨e, hne, hst, hsealed⟩ := mask_lookalike_header_sealed toyOps kvW cfg v _ _ [15,0,0,0,0,0,0,0] [9,9,9] idBlock .block
+    (by decide) hhid rfl (by decide) (by decide)
+    (Or.inr (matchKind_short _ _ (by rw [List.length_take]; simp; omega))) hw
+  refine ⟨_, e, hw, ?_, ?_, ?_⟩
+  · rw [hst, hwin]; rfl
+  · rw [hhid] at hsealed; exact hsealed
+  · have := mask_other_no_keys toyOps kvW kvN cfg v _ p _ (by decide) (by rw [hwin]; decide) hnm hnr hp
+      (by rw [hpl, hhid]; decide) (Or.inl (by decide)) ⟨rfl, rfl⟩ hw
+    rw [this, hwin]
+    rfl
+
+/-- `100% sure` with a left window of 4 (`100%`) and pattern `*` (stand-in back end, AcraBlock kind): the
+window ends in `%` directly in front of the container's `%%%`; the window condition holds
+(`window_ok_trailing_pct`), a reader without keys gets `100%*`. -/
+example :
+    let cfg : MaskCfg := ⟨[42], 4, true, .block⟩
+    let v : Bytes := [49,48,48,37,32,115,117,114,101]
+    let kvW : KeyView := ⟨none, none, some [1,2,3], none⟩
+    let kvN : KeyView := ⟨none, none, none, none⟩
+    ∃ stored, maskWrite toyOps kvW cfg v (List.replicate 56 5) = .ok stored ∧
+      maskRead toyOps kvN cfg stored = .ok [49,48,48,37,42] true := by
+  intro cfg v kvW kvN
+  have hs := toy_sealLaws
+  have hsl := toy_sealLen
+  have hkid := keyId_length toyOps toy_hashLen [1,2,3] []
+  have hhid : hiddenPart cfg v = [32,115,117,114,101] := by decide
+  have hwin : windowPart cfg v = [49,48,48,37] := by decide
+  have hnm : matchKind cfg.kind (hiddenPart cfg v) = false := by rw [hhid]; decide
+  have hnr : registryMatch (hiddenPart cfg v) = false := by rw [hhid]; decide
+  obtain ⟨p, hp⟩ := protect_block_total toyOps hs kvW [1,2,3] (hiddenPart cfg v) (List.replicate 56 5) rfl (by decide)
+    (by rw [hhid]; decide) (by rw [hhid]; decide) (by decide)
+  obtain ⟨hpl, _⟩ := protect_block_length toyOps hs hsl kvW [1,2,3] _ _ p rfl hkid hnm hnr hp
+  have hpl' : p.length = 155 := by rw [hpl, hhid]; rfl
+  have hw : maskWrite toyOps kvW cfg v (List.replicate 56 5) = .ok (joinSides cfg (windowPart cfg v) p) := by
+    rw [maskWrite_eq toyOps kvW cfg v _ (by decide), hp]; rfl
+  have hok := window_ok_trailing_pct toyOps kvW cfg v _ p [49,48,48] 1 rfl (by decide) (by rw [hwin]; rfl) (by decide)
+    hnm hnr hp (by rw [hpl']; decide)
+  refine ⟨_, hw, ?_⟩
+  have := mask_other_window toyOps kvW kvN cfg v _ p _ (by decide) hok
+    (nonOwner_of_no_keys toyOps kvW kvN cfg v _ p hnm hnr hp (by rw [hpl']; decide) (Or.inl (by decide)) ⟨rfl, rfl⟩) hw
+  rw [this, hwin]
+  rfl
 
 end AcraModel.Props.C11
